@@ -36,8 +36,13 @@ type Received struct {
 
 // NewStack builds and starts a stack and its listener.
 func NewStack(e *core.Env, name string, id *m.Address, store config.Store, full bool) *Stack {
+	return NewStackTun(e, name, id, store, full, false)
+}
+
+// NewStackTun is NewStack with an optional stub tun device (traffic enabled).
+func NewStackTun(e *core.Env, name string, id *m.Address, store config.Store, full, tun bool) *Stack {
 	up := make(chan frame.Frame, 4096)
-	opts := node.Options{Upstream: up, LinkOnly: !full}
+	opts := node.Options{Upstream: up, LinkOnly: !full, Tun: tun}
 	if full {
 		opts.Upstream = nil
 	}
